@@ -255,8 +255,11 @@ def _parse_out_default_and_doc(
     elif default in frozenset(("True", "False")):
         default = literal_eval(default)
     else:
-        with suppress(ValueError):
-            default = float(default)
+        try:
+            default = int(default)
+        except ValueError:
+            with suppress(ValueError):
+                default = float(default)
     if emit_default_doc:
         return line, default
     else:
